@@ -101,6 +101,8 @@ func vfPickSize(mode string, r *vfRand, maxPayload, maxMsg int) int {
 	switch mode {
 	case "one":
 		return 1
+	case "q256":
+		return clamp(256)
 	case "tiny":
 		return clamp(1 + r.Intn(8))
 	case "small":
